@@ -521,6 +521,28 @@ func wlOrderRun(which string) func(c *core.Ctx) {
 		}
 		seq = seq[:0]
 		rec3()
+		// third universe: words that differ only in white space at their edges
+		u3 := []string{"alpha", "alpha ", "alpha\r", " alpha", "Alpha", "alpha\n", "Alpha "}
+		var rec4 func()
+		rec4 = func() {
+			if len(seq) > 0 {
+				h := fnv.New32a()
+				h.Write([]byte(setKey(seq)))
+				if c.MineKey(int(h.Sum32() % 9973)) {
+					s.input(append([]string{}, seq...))
+				}
+			}
+			if len(seq) == u2Len {
+				return
+			}
+			for _, w := range u3 {
+				seq = append(seq, w)
+				rec4()
+				seq = seq[:len(seq)-1]
+			}
+		}
+		seq = seq[:0]
+		rec4()
 		// every sequence of length 4 (thorough 5) over the two twin pairs
 		// (order of twins in the INPUT matters to slice-based normalisers)
 		tw := []string{"ab", "Ab", "polish", "Polish"}
